@@ -256,3 +256,32 @@ CONTRACTS["parameters:ParameterSet.__init__#default_valued_quantity"] = dict(
              ("C16+C06.one_series_with_the_default_value_per_population_of_the_quantitys_type", "self.pars['q'] == ('parameter', 'q', {'adults': ('series', BUILT[0][0], DEFAULT)}) and len(BUILT) == 1")],
     defined_props=["C16", "C06"])
 CONTRACTS["parameters:ParameterSet.__init__#default_valued_quantity"]["ghost_params"].update({"TRUE": "const:True", "FALSE": "const:False", "CODE": "const:'q'", "TYPE": "const:'hum'"})
+
+
+# ---- parameters.Parameter.has_values / interpolate (C06: what the model is built from): a population has values exactly when it has a series with data; interpolation is that
+# population's series interpolated at the requested times with the parameter's own interpolation method (linear unless changed)
+def _env_hv(pop, with_data):
+    def make(it):
+        from pyvc.interp import PyObjV
+        from pyvc import source
+
+        um = source.load("utils")
+        ts = PyObjV("TimeSeries", um, {"t": [2020.0] if with_data else [], "vals": [1.0] if with_data else [], "assumption": None, "sigma": None, "units": "x", "_sampled": False, "CALLS": []})
+        return {"self": PyObjV("Parameter", source.load("parameters"), {"name": "par", "ts": {"adults": ts}, "_interpolation_method": "linear"}), "pop_name": pop, "tvec": "TIMES", "TS": ts}
+
+    return make
+
+
+for _tag, _pop, _data, _want in (("series_with_data", "adults", True, True), ("series_without_data", "adults", False, False), ("no_series_for_the_population", "children", True, False)):
+    CONTRACTS["parameters:Parameter.has_values#%s" % _tag] = dict(
+        schema=schema, make_env=_env_hv(_pop, _data), ensures=[("C06.a_population_has_values_exactly_when_it_has_a_series_with_data", "result is %r" % _want)], defined_props=["C06"])
+
+
+def _ghost_interp(it, t2, method="linear", **k):
+    it.stub_receiver.fields["CALLS"].append((t2, method))
+    return "VALUES"
+
+
+CONTRACTS["parameters:Parameter.interpolate"] = dict(
+    schema=schema, make_env=_env_hv("adults", True), call_stubs={"self.ts[pop_name].interpolate": _ghost_interp},
+    ensures=[("C06.the_populations_own_series_is_interpolated_at_the_requested_times_with_the_parameters_method", "result == 'VALUES' and TS.CALLS == [('TIMES', 'linear')]")], defined_props=["C06"])
